@@ -80,18 +80,18 @@ range (`bit_start + 0 ≤ BITS`) and the scratch suffices: the full statement "e
 partition returns the single-thread result" is false of the code at `length = 0`
 (both the single- and the multi-threaded entry points go through the same loop). -/
 theorem prepare_zero_count_counterexample :
-    ¬ (∀ threads bits start count avail per, 1 ≤ threads → start + count ≤ bits →
+    ¬ (∀ threads bits start count avail per, 1 ≤ threads → start + count ≤ bits → per % 64 = 0 →
         threads * per ≤ avail → ∃ acts, execPrepare threads bits start count avail per = .ok acts) := by
   intro h
-  obtain ⟨acts, ha⟩ := h 1 32 0 0 0 0 (by decide) (by decide) (by decide)
-  simp [execPrepare, parLoop, chunksMut, divCeil] at ha
+  obtain ⟨acts, ha⟩ := h 1 32 0 0 64 64 (by decide) (by decide) (by decide) (by decide)
+  simp [execPrepare, parLoop, chunksMut, divCeil, splitMut, splitLoop, takeAligned, Win.available, Win.alignOffset] at ha
 
 /-- **execBdd / execPrepare action tables.**  For admissible arguments with at least one work item
 the call does not panic; slot `j` of the work range is written exactly by the thread that owns it
 with the result of item `j`; every other slot is zeroed (the tail loops); nothing is left
 untouched. -/
 theorem execPrepare_table_partial (threads bits start count avail per : Nat) (ht : 1 ≤ threads)
-    (hc : 1 ≤ count) (hr : start + count ≤ bits) (hs : threads * per ≤ avail) :
+    (hc : 1 ≤ count) (hr : start + count ≤ bits) (hs : threads * per ≤ avail) (h64 : per % 64 = 0) :
     ∃ acts, execPrepare threads bits start count avail per = .ok acts ∧ acts.length = bits ∧
       ∀ j (h : j < acts.length),
         if start ≤ j ∧ j < start + count then ∃ t, t < threads ∧ acts[j] = Act.item t t j
@@ -100,7 +100,10 @@ theorem execPrepare_table_partial (threads bits start count avail per : Nat) (ht
   unfold execPrepare
   have h1 : ¬ (start + count > bits) := by omega
   have h2 : ¬ (avail < threads * per) := by omega
-  simp only [h1, h2, if_false, hq]
+  have h0 : ¬ (threads = 0) := by omega
+  have hsp := splitLoop_aligned per h64 threads ⟨0, avail⟩ (by simp) (by simpa using hs)
+  have hav : (⟨0, avail⟩ : Win).available = avail := by simp [Win.available, Win.alignOffset]
+  simp only [h1, h2, h0, if_false, hq, splitMut, hav, hsp]
   refine ⟨_, rfl, by simp, ?_⟩
   intro j hj
   simp only [List.length_map, List.length_range] at hj
@@ -126,14 +129,42 @@ theorem execPrepare_table_partial (threads bits start count avail per : Nat) (ht
       simp [e1, e2, e3, hv]
   · simp only [hin, if_false]
 
-example : execPrepare 3 8 2 5 300 100 = .ok
+example : execPrepare 3 8 2 5 384 128 = .ok
     [.zero, .zero, .item 0 0 2, .item 0 0 3, .item 1 1 4, .item 1 1 5, .item 2 2 6, .zero] := by rfl
 
-/- FULL STATEMENT (not proved, false of the code): the same for every `count ≥ 0`, where for
-`count = 0` every slot is zeroed.  `prepare_zero_count_counterexample` is the witness. -/
+/- FULL STATEMENT (not proved, false of the code): the same for every `count ≥ 0` (for
+`count = 0` every slot zeroed) and every per-thread size, not only multiples of 64.
+`prepare_zero_count_counterexample` and `split_mut_counterexample` are the witnesses. -/
+
+/-- **split_mut (aligned sizes).**  From a 64-aligned window, `split_mut(n, len)` with `len` a
+multiple of 64 and `n·len ≤ available` succeeds and returns the `n` consecutive, pairwise disjoint
+windows `[start + k·len, start + (k+1)·len)`. -/
+theorem split_mut_partial (w : Win) (n len : Nat) (hw : w.start % 64 = 0) (hl : len % 64 = 0)
+    (ha : n * len ≤ w.available) :
+    splitMut w n len = .ok ((List.range n).map (fun k => (⟨w.start + k * len, len⟩ : Win)),
+      ⟨w.start + n * len, w.len - n * len⟩) := by
+  have hav : w.available = w.len := by simp [Win.available, Win.alignOffset, hw]
+  unfold splitMut
+  rw [if_neg (by omega)]
+  exact splitLoop_aligned len hl n w hw (by omega)
+
+example : splitMut ⟨0, 4096⟩ 3 1024 = .ok ([⟨0, 1024⟩, ⟨1024, 1024⟩, ⟨2048, 1024⟩], ⟨3072, 1024⟩) := by rfl
+
+/-- **split_mut (full statement is false).**  `split_mut`'s own precondition
+(`available ≥ n·len`, the one both multi-threaded entry points assert and document) does not
+prevent the panic inside it: every window after the first is re-aligned to 64 bytes, which costs
+`(64 − len % 64) % 64` bytes per window.  Witness = the per-thread size of
+`fhe_uint_prepare_tmp_bytes` at the crate's test parameters (320144 = 16 mod 64), two threads. -/
+theorem split_mut_counterexample :
+    ¬ (∀ (w : Win) (n len : Nat), w.start % 64 = 0 → n * len ≤ w.available →
+        ∃ r, splitMut w n len = .ok r) := by
+  intro h
+  obtain ⟨r, hr⟩ := h ⟨0, 2 * 320144⟩ 2 320144 (by decide) (by decide)
+  simp [splitMut, splitLoop, takeAligned, Win.available, Win.alignOffset] at hr
 
 theorem execBdd_table_partial (threads outLen outputSize inBits circIn avail per : Nat) (ht : 1 ≤ threads)
-    (hc : 1 ≤ outputSize) (hr : outputSize ≤ outLen) (hin : circIn ≤ inBits) (hs : threads * per ≤ avail) :
+    (hc : 1 ≤ outputSize) (hr : outputSize ≤ outLen) (hin : circIn ≤ inBits) (hs : threads * per ≤ avail)
+    (h64 : per % 64 = 0) :
     ∃ acts, execBdd threads outLen outputSize inBits circIn avail per = .ok acts ∧ acts.length = outLen ∧
       ∀ j (h : j < acts.length),
         if j < outputSize then ∃ t, t < threads ∧ acts[j] = Act.item t t j
@@ -144,7 +175,9 @@ theorem execBdd_table_partial (threads outLen outputSize inBits circIn avail per
   have h2 : ¬ (avail < threads * per) := by omega
   have h3 : ¬ (outLen < outputSize) := by omega
   have h4 : ¬ (outLen = 0) := by omega
-  simp only [h1, h2, h3, h4, if_false, hq]
+  have hsp := splitLoop_aligned per h64 threads ⟨0, avail⟩ (by simp) (by simpa using hs)
+  have hav : (⟨0, avail⟩ : Win).available = avail := by simp [Win.available, Win.alignOffset]
+  simp only [h1, h2, h3, h4, if_false, hq, splitMut, hav, hsp]
   refine ⟨_, rfl, by simp, ?_⟩
   intro j hj
   simp only [List.length_map, List.length_range] at hj
@@ -169,10 +202,10 @@ theorem execBdd_table_partial (threads outLen outputSize inBits circIn avail per
       simp [e1, e2, e3, hv]
   · simp only [hjn, if_false]
 
-example : execBdd 40 34 32 64 64 40000 1000 = .ok
+example : execBdd 40 34 32 64 64 40960 1024 = .ok
     ((List.range 32).map (fun j => Act.item j j j) ++ [.zero, .zero]) := by rfl
 /-- an `slt`-like circuit (one output bit, 31 zero-filled) on 4 threads: one thread spawned -/
-example : execBdd 4 32 1 64 64 4000 1000 = .ok (Act.item 0 0 0 :: List.replicate 31 Act.zero) := by rfl
+example : execBdd 4 32 1 64 64 4096 1024 = .ok (Act.item 0 0 0 :: List.replicate 31 Act.zero) := by rfl
 
 /-- **interleave_eq_seq.**  Queues of micro-steps whose footprints (output slot, scratch window)
 are disjoint between queues: every interleaving of the queues that keeps each queue's order ends
